@@ -329,6 +329,22 @@ func refCMSVerify(c *RefCMS, cert *x509.Certificate, detached []byte) error {
 	return last
 }
 
+// refCMSStrictTime is the additional rule of verifiers that are strict about time (go.mozilla.org/pkcs7 is one):
+// a signingTime attribute, when the signer that names cert carries one, has to lie inside the validity window of
+// that certificate.
+func refCMSStrictTime(c *RefCMS, cert *x509.Certificate) error {
+	for _, s := range c.Signers {
+		if !bytes.Equal(s.IssuerRaw, cert.RawIssuer) || s.Serial.Cmp(cert.SerialNumber) != 0 || !s.HasAttrTime {
+			continue
+		}
+		if s.AttrTime.Before(cert.NotBefore) || s.AttrTime.After(cert.NotAfter) {
+			return fmt.Errorf("signingTime %s is outside the validity of the signer certificate (%s .. %s)", s.AttrTime.UTC().Format(time.RFC3339),
+				cert.NotBefore.UTC().Format(time.RFC3339), cert.NotAfter.UTC().Format(time.RFC3339))
+		}
+	}
+	return nil
+}
+
 // refSpcDigest extracts (digest algorithm, digest) from the content octets of
 // an SpcIndirectDataContent.
 func refSpcDigest(contentOctets []byte) (asn1.ObjectIdentifier, []byte, error) {
